@@ -39,6 +39,9 @@ func c02Atoms(tier string) []c02Atom {
 		{Text: `m=*bar*`, Col: "m", Op: "=", Lit: "*bar*"},
 		{Text: `b=true`, Col: "b", Op: "=", Lit: "true"},
 		{Text: `foo`, Lit: "foo"},
+		// all-column terms that read as numbers (matched against every column, numeric ones included)
+		{Text: `404`, Lit: "404"},
+		{Text: `1500`, Lit: "1500"},
 		// literals with characters that are special in regular expressions (the wildcard machinery must treat them literally)
 		{Text: `m="a.b"`, Col: "m", Op: "=", Lit: "a.b"},
 		{Text: `m=*.b`, Col: "m", Op: "=", Lit: "*.b"},
@@ -91,6 +94,8 @@ func c02Datasets() []c02Dataset {
 		mk("ints", []string{"1", "2", "3", "2", "-1"}, []string{`"foo"`, `"bar"`, `"foo bar"`, `"Foo"`, `"baz"`}, []string{"true", "true", "false", "false", ""}),
 		mk("floats", []string{"1.5", "2.5", "-1", "2", ""}, []string{`"foo bar"`, "", `"BAR"`, `"bar foo"`, `"foo"`}, []string{"", "true", "", "false", "true"}),
 		mk("strings", []string{`"x"`, `"X"`, `"xy"`, `"2"`, ""}, []string{`"foo"`, `"foo"`, `"foo"`, `"bar"`, `"bar"`}, []string{"true", "true", "true", "true", "false"}),
+		// two numeric columns with disjoint value ranges (all-column numeric terms match in different columns of one block)
+		mk("twonum", []string{"404", "7", "404", "9", "12"}, []string{`"moved"`, `"ok"`, `"ok"`, `"moved"`, `"x"`}, []string{"3", "1500", "1500", "8", "1500"}),
 		mk("punct", []string{"1", "2", "3", "2", "1", "3"}, []string{`"a.b"`, `"axb"`, `"a+b"`, `"aab"`, `"xa.b"`, `"a.bx"`}, []string{"true", "false", "true", "false", "true", "false"}),
 	}
 }
